@@ -78,7 +78,19 @@ func (d *redisDatum) ToString() (value string, success bool) {
 	}
 }
 
+// maxRedisDepth bounds the nesting of arrays: the parser recurses once per
+// level and a client can nest millions of one-element arrays in a few megabytes
+const maxRedisDepth = 64
+
 func parseRedisData(scanner *bufio.Scanner) (redisDatum, error) {
+	return parseRedisDataAt(scanner, 0)
+}
+
+func parseRedisDataAt(scanner *bufio.Scanner, depth int) (redisDatum, error) {
+	if depth > maxRedisDepth {
+		return redisDatum{}, fmt.Errorf("Arrays nested deeper than %d", maxRedisDepth)
+	}
+
 	success := scanner.Scan()
 	if !success {
 		err := scanner.Err()
@@ -99,7 +111,7 @@ func parseRedisData(scanner *bufio.Scanner) (redisDatum, error) {
 		}
 		var items []interface{}
 		for i := uint64(0); i < n; i++ {
-			item, err := parseRedisData(scanner)
+			item, err := parseRedisDataAt(scanner, depth+1)
 			if err != nil {
 				return redisDatum{}, err
 			}
